@@ -1,5 +1,6 @@
 """Sacrificial worker for C10: runs the compiled helpers on JSON-line cases (one result line each)."""
 import json
+import os
 import sys
 
 
@@ -96,6 +97,13 @@ def run(case):
 def main():
     repo = sys.argv[1]
     sys.path.insert(0, repo)
+    sys.path.insert(0, os.path.dirname(os.path.dirname(os.path.abspath(__file__))))
+    try:
+        from harness import ext
+
+        ext.preload(repo)
+    except Exception:
+        pass
     for line in sys.stdin:
         line = line.strip()
         if not line:
